@@ -191,6 +191,18 @@ Proof.
   - reflexivity.
 Qed.
 
+(* any two answers meeting [max_spec] (whatever entry point produced them: pipelines,
+   dispatcher arms, StripedScores::max) are both None or equal as values *)
+Theorem C07_max_unique :
+  forall (T : Type) (le : T -> T -> bool) (m : list (list T)) (o1 o2 : option T),
+  max_spec le m o1 -> max_spec le m o2 ->
+  match o1, o2 with
+  | None, None => m = []
+  | Some v, Some w => le v w = true /\ le w v = true
+  | _, _ => False
+  end.
+Proof. intros T le m o1 o2. exact (max_spec_agree le m o1 o2). Qed.
+
 Theorem C07_arms_agree_u8 :
   forall (a b : arm) (m : list (list Z)), wf 32 m -> u8_matrix m ->
   exists o, dispatch_max_u8 a m = Ok o /\ dispatch_max_u8 b m = Ok o.
@@ -365,6 +377,32 @@ Proof.
   split.
   - intros v Hv. exact (padding_max F32.le F32.ninf C V m v Hwf Hpad Hex Hv).
   - intros rc Hrc. exact (padding_argmax F32.le F32.ninf C V m rc Hwf Hpad Hex Hrc).
+Qed.
+
+(* the cell formula that C01_score_generic_cell (coq/score) proves for the score matrix of every
+   backend is the hypothesis "cell = defined score" above (wildcard K-1, default value 0.0):
+   C01's conclusion + a -inf wildcard column give the padding claim *)
+Theorem C07_padding_from_C01_cells :
+  forall (C K : nat) (m : list (list F32.t)) (pssm : list (list F32.t)) (s : list nat),
+  wf C m ->
+  (forall r c, r < length m -> c < C ->
+     nth c (nth r m []) F32.zero =
+     fold_left F32.add (map (fun j => nth (nth (c * length m + r + j) s (K - 1)) (nth j pssm []) F32.zero)
+                            (seq 0 (length pssm))) F32.zero) ->
+  (forall row, In row pssm -> nth (K - 1) row F32.zero = F32.ninf) ->
+  0 < length pssm ->
+  (forall i, i < length m * C -> terms_ok F32.add F32.zero (K - 1) F32.zero f32_okv pssm s i = true) ->
+  let V := length s + 1 - length pssm in
+  (forall i, V <= i -> i < length m * C -> index_usize m i = Ok F32.ninf) /\
+  ((exists i x, i < V /\ index_usize m i = Ok x /\ F32.is_finite x = true) ->
+   (forall v, is_max F32.le m v ->
+      (exists i, i < V /\ index_usize m i = Ok v) /\
+      (forall j y, j < V -> index_usize m j = Ok y -> F32.le y v = true)) /\
+   (forall rc, argmax_spec F32.le C m (Some rc) -> offset m rc < V)).
+Proof.
+  intros C K m pssm s Hwf Hcell Hw HM Hok.
+  exact (C07_padding_neg_inf (K - 1) F32.zero C m pssm s Hwf
+           (cells_from_C01_shape F32.add F32.zero C K m pssm s Hwf Hcell) Hw HM Hok).
 Qed.
 
 (* ================= the extracted checker ================= *)
